@@ -2,7 +2,10 @@
 # runs every claimed check (quick tier unless $1 given) and prints a summary
 cd /verif
 tier="${1:-quick}"
-for id in $(python3 -c "import json;print(' '.join(c['property_id'] for c in json.load(open('MANIFEST.json'))['checks']))"); do
+shift
+ids="$*"
+[ -z "$ids" ] && ids=$(python3 -c "import json;print(' '.join(c['property_id'] for c in json.load(open('MANIFEST.json'))['checks']))")
+for id in $ids; do
   s=$(date +%s)
   timeout ${VERIF_TIMEOUT:-3600} ./check $id --tier $tier > /tmp/runall_${tier}_$id.log 2>&1
   rc=$?
